@@ -415,13 +415,22 @@ class WCSImageCatalog(object):
             hy = max(1, int(np.floor(np.amax(self._catalog['y']) + 0.5)) + 1) - 0.5
 
         else:
-            ((lx, hx), (ly, hy)) = self.corrector.bounding_box
+            ((bb_lx, bb_hx), (bb_ly, bb_hy)) = self.corrector.bounding_box
             # shrink BB so that we do not get NaNs due to rounding
             # issues (pixels on the edge could outside the box)
-            lx += 0.5
-            hx -= 0.5
-            ly += 0.5
-            hy -= 0.5
+            lx = bb_lx + 0.5
+            hx = bb_hx - 0.5
+            ly = bb_ly + 0.5
+            hy = bb_hy - 0.5
+
+            if len(self._catalog) > 0:
+                # ... but do not shrink past the sources that are inside
+                # the BB (the footprint must contain them); never extend
+                # beyond the BB itself:
+                lx = min(lx, max(float(np.amin(self._catalog['x'])), bb_lx))
+                hx = max(hx, min(float(np.amax(self._catalog['x'])), bb_hx))
+                ly = min(ly, max(float(np.amin(self._catalog['y'])), bb_ly))
+                hy = max(hy, min(float(np.amax(self._catalog['y'])), bb_hy))
 
         if stepsize is None:
             nintx = 3
